@@ -4,8 +4,10 @@
 import json, os, shutil, subprocess, sys
 from concurrent.futures import ThreadPoolExecutor
 VERIF = os.path.dirname(os.path.dirname(os.path.abspath(__file__)))
-names = [a for a in sys.argv[1:] if not a.startswith("--")] or sorted(os.listdir(os.path.join(VERIF, "seeded_benign")))
-PROPS = [f"C{i:02d}" for i in range(1, 21)]
+_argv = sys.argv[1:]
+_props = _argv[_argv.index("--props") + 1] if "--props" in _argv else None   # --props C04,C09: only these checks (targeted regression)
+names = [a for a in _argv if not a.startswith("--") and a != _props] or sorted(os.listdir(os.path.join(VERIF, "seeded_benign")))
+PROPS = _props.split(",") if _props else [f"C{i:02d}" for i in range(1, 21)]
 
 def run(name):
     wt = f"/tmp/benignwt_{name}"
@@ -36,4 +38,4 @@ with ThreadPoolExecutor(14) as ex:
                 print(f"    {p}: {v}")
         else:
             print(f"{name}: silent")
-print(f"{len(names) - bad}/{len(names)} refactorings leave all 20 checks silent")
+print(f"{len(names) - bad}/{len(names)} refactorings leave all {len(PROPS)} checks run silent")
